@@ -256,6 +256,36 @@ def run(tier, rep):
             rec(rid, s["kind"], "value", offered=s["offered"], exists=sorted(s["exists"]), rejected=[n for n, _, _ in rj],
                 about={"site": s["what"], "offered": s["offered"], "exists": sorted(s["exists"]), "rejected": rj, "text": s["text"]})
 
+    # ---------------- the web playground's wrappers (crates/wasm-app: hover, dot_completions, colon_colon_completions return
+    # strings; the completion lists are JSON written by hand): same contract, at the completion sites and the editing states
+    wreqs = [{"id": f"s{k}", "text": s_["text"], "fns": [], "positions": [[s_["line"], s_["col"]]]} for k, s_ in enumerate(sites)]
+    wreqs += [{"id": f"e{k}", "text": q["text"], "fns": [], "positions": q["positions"]} for k, q in enumerate(ereqs[:: (6 if quick else 2)])]
+    wres = gv_robust("web", wreqs)
+    web_n = 0
+    for q, r in zip(wreqs, wres):
+        site = sites[int(q["id"][1:])] if q["id"].startswith("s") else None
+        rid0 = "web:" + (f"site:{site['what']}" if site else f"edit:{q['id']}")
+        if r.get("fatal") or r.get("verdict") == "abort":
+            rec(rid0, "hover", "timeout" if r.get("fatal") == "timeout" else "panic", about={"base": "playground", "panic_at": r.get("at"), "msg": r.get("msg"), "text": q["text"]})
+            continue
+        for x in r["queries"]:
+            for kind in ("hover", "dot", "colon"):
+                v = x[kind]
+                rid = f"{rid0}@{x['l']}:{x['c']}:{kind}"
+                web_n += 1
+                if "panic" in v:
+                    rec(rid, kind, "panic", about={"base": "playground", "site": site["what"] if site else "", "panic_at": v["panic"], "msg": v.get("msg"), "text": q["text"]})
+                elif kind == "hover":
+                    rec(rid, kind, "none" if v["ok"].startswith("error") else "value", got="" if v["ok"].startswith("error") else v["ok"])
+                else:
+                    try:
+                        names = [i_["name"] for i_ in json.loads(v["ok"])]
+                    except Exception:
+                        rec(rid, kind, "malformed", about={"base": "playground", "site": site["what"] if site else "", "msg": v["ok"][:300], "text": q["text"]})
+                        continue
+                    known = site is not None and kind == site["kind"]
+                    rec(rid, kind, "value" if names else "none", offered=names, exists=sorted(site["exists"]) if known else ("*",),
+                        about={"base": "playground", "site": site["what"], "offered": names, "exists": sorted(site["exists"]), "text": q["text"]} if known else None)
     # ---------------- validate against the contract
     d = workdir("c20-trace")
     problems = {}
@@ -280,7 +310,9 @@ def run(tier, rep):
             if pr.startswith("no-answer"):
                 where = rid.split("@")[0].split(":")[0]
                 ident = f"{q['outcome']}:{q['kind']}:{ab.get('panic_at')}:{where}"
-            elif rid.startswith("site:"):
+                if rid.startswith("web:"):
+                    ident = f"{q['outcome']}:{q['kind']}:{ab.get('panic_at')}:playground"
+            elif rid.startswith("site:") or rid.startswith("web:site:"):
                 ident = f"{pr}:{q['kind']}:{ab.get('site', '').split('|')[0].rstrip('abcdefghijklmnopqrstuvwxyzABCDEFGHIJKLMNOPQRSTUVWXYZ')}"
             else:
                 ident = f"{pr}:{q['kind']}:{ab.get('base', '?')}"
@@ -292,7 +324,7 @@ def run(tier, rep):
                          "queries": len(records), "by_kind_and_outcome": {f"{k}:{o}": n for (k, o), n in kinds.items()},
                          "bases": len(bases), "bases_compiled_for_oracle": compiled_bases, "hover_positions_with_compiler_type": oracle_points,
                          "editing_states_in_model": len(edits), "editing_states_queried": len(ereqs), "completion_sites": len(sites),
-                         "completions_offered_and_inserted": offered_total})
+                         "completions_offered_and_inserted": offered_total, "playground_queries": web_n})
     rep.sample({"site": sites[0]["what"], "offered": sites[0]["offered"], "exists": sorted(sites[0]["exists"])})
     if oracle_points < 300 or len(records) < 5000 or offered_total < 100:
         raise ToolError(f"vacuity: oracle points {oracle_points}, queries {len(records)}, offered {offered_total}")
